@@ -269,6 +269,15 @@ static void oom_sequence(unsigned long seed) {
             rep = p == nullptr && scalable_msize(q) >= big && check_range(q, 4096, 9) && check_range(q + big - 4096, 4096, 9); if (p) { ev("Fail", {{"rep", 0}, {"pt", 1}}); flush_events(); TR.close(); _exit(0); } scalable_free(q); }
         if (x.how <= 2) rep = p == nullptr;
         ev("Fail", {{"rep", rep}, {"pt", intact()}}); if (p && x.how <= 2) scalable_free(p); }
+    // calloc(a, b) whose true product is >= 2^64 but WRAPS to a small value (one factor small, one huge - in either order): every one must be refused.
+    // The family covers the boundary of the cheap pre-check in scalable_calloc (a factor of 2^32) from both sides.
+    { static const size_t BS[] = {2, 3, 5, 7, 8, 16, 24, 4096, 65536, ((size_t)1 << 31) - 1, ((size_t)1 << 32) - 1, (size_t)1 << 32, ((size_t)1 << 32) + 1, (size_t)1 << 40};
+      static const size_t KS[] = {0, 1, 8, 1000};
+      for (size_t b : BS) for (size_t k : KS) for (int swap = 0; swap < 2; swap++) {
+          size_t a = M / b + 1 + k;                 // a * b >= 2^64 exactly; (a * b) mod 2^64 is small
+          if ((size_t)(a * b) > ((size_t)1 << 20)) continue;    // a library that lets the product wrap must not be made to clear gigabytes here
+          void* p = swap ? scalable_calloc(b, a) : scalable_calloc(a, b);
+          ev("Fail", {{"rep", p == nullptr}, {"pt", intact()}}); if (p) scalable_free(p); } }
     for (auto& b : live) scalable_free(b.p);
 }
 static int run_oom(int argc, char** argv) {
